@@ -68,7 +68,12 @@ def gen(seed):
         if rng.random() < 0.15 and tps:
             t, p = rng.choice(tps)
             move = [t, p, rng.choice(brokers)]
-        steps.append(dict(kind=kind, tps=payload_tps, faults=faults, move=move,
+        readdress = None
+        if rng.random() < 0.15 and nb > 1:
+            # a broker comes back at another address; the client is told (full refresh) before the call
+            readdress = rng.choice(brokers)
+            faults.pop(str(readdress), None)
+        steps.append(dict(kind=kind, tps=payload_tps, faults=faults, move=move, readdress=readdress,
                           fail_on_error=rng.random() < 0.5, group="g%d" % rng.randint(0, 2)))
     return dict(seed=seed, brokers=brokers, topics=topics, steps=steps, latency=rng.choice((0.0, 0.002, 0.02)),
                 chunk=rng.choice(("whole", "random", "coalesce")),
@@ -94,6 +99,7 @@ def run_e2e(spec, res):
         box = []
         client.load_metadata_for_topics().addBoth(box.append)
         w.run(until=w.clock.seconds() + 10)
+        gen_ = [0]
         for step in sc["steps"]:
             # -- arrange faults
             cl.faults.rules = []
@@ -103,6 +109,15 @@ def run_e2e(spec, res):
             w.run(until=w.clock.seconds() + 1.0)
             if step["move"]:
                 cl.move_leader(step["move"][0], step["move"][1], step["move"][2])
+            if step.get("readdress"):
+                b_ = step["readdress"]
+                gen_[0] += 1
+                step["_old_addr"] = (cl.brokers[b_].host, cl.brokers[b_].port)
+                cl.readdress(b_, "moved%d-%d.sim" % (b_, gen_[0]), 7500 + gen_[0], sever=True)
+                told = []
+                client.load_metadata_for_topics().addBoth(told.append)
+                w.run(until=w.clock.seconds() + 6.0, stop=lambda: bool(told))
+                step["_told"] = bool(told) and not isinstance(told[0], Failure)
             for b, f in step["faults"].items():
                 b = int(b)
                 if f == "refuse":
@@ -184,6 +199,22 @@ def run_e2e(spec, res):
             result = out[0]
             evs = [e for e in cl.history[h0:] if "req" in e]
             check_step(res, sc, w, client, step, kind, tps, payloads, result, evs, cl, connected0, known0, a0, C)
+            if step.get("readdress") and step.get("_told") and kind in ("produce", "produce0", "fetch", "offsets"):
+                b_ = step["readdress"]
+                led = [tp for tp in tps if cl.leaders.get(tp) == b_]
+                reached = set((t_["topic"], p_["partition"]) for e in evs
+                              if e["api"] == API_OF[kind] and e["broker"] == b_
+                              for t_ in e["req"]["topics"] for p_ in t_["partitions"])
+                missing = [tp for tp in led if tp not in reached]
+                stale_dials = [(a.host, a.port) for a in w.net.attempts[a0:] if (a.host, a.port) == step["_old_addr"]
+                               and hasattr(a.factory, "node_id")]
+                if led:
+                    res.hit("calls_after_a_broker_moved")
+                if missing and stale_dials:
+                    res.violate("routing/moved-broker-not-reached", "node %d came back at a new address and the client "
+                                "was told so by a full metadata refresh, yet the %s payloads for %r never reached it "
+                                "(dialled: %r)" % (b_, kind, missing, [(a.host, a.port) for a in w.net.attempts[a0:]][:4]))
+                res.ob("moved_broker_reached_at_new_address")
             if len(set(e["broker"] for e in evs if e["api"] not in ("Metadata", "FindCoordinator"))) >= 2 \
                     or step["faults"]:
                 nontrivial = True
